@@ -110,7 +110,8 @@ def gen_run(seed, tier, i):
             step["triples"] = st["triples"]
             step["op"] = "dot_bracket"
             steps.append(step)
-        return {"property": NAME, "kind": "catalogue", "family": st["family"], "steps": steps}
+        return {"property": NAME, "kind": "catalogue", "family": st["family"], "steps": steps,
+                "loglevel": ["off", "DEBUG", "INFO", "off"][i % 4]}
     # seeded history
     nsteps = s_ops.randint(1, plan["max_steps"])
     backends = ["sim-api", "cbc-wrapper", "highs-wrapper", "none", "real-cbc"]
@@ -181,7 +182,7 @@ def gen_run(seed, tier, i):
         st = structures.gen_structure(s_struct, max_stems=5, knotted_bias=1.0)
         steps.append({"triples": st["triples"], "op": "dot_bracket", "via": "argument", "backend": "sim-api",
                       "fault": {"kind": "ok_tolerance", "tie": s_fault.randrange(64)}, "probe": True})
-    return {"property": NAME, "kind": "history", "steps": steps}
+    return {"property": NAME, "kind": "history", "steps": steps, "loglevel": s_cfg.choice(["off", "off", "INFO", "DEBUG"])}
 
 
 def coverage_keys(run, observations):
@@ -266,6 +267,8 @@ def shrink_candidates(run, v):
         yield _with_step(run, focus, dict(step, via="argument"))
     if step.get("fault", {}).get("tie"):
         yield _with_step(run, focus, dict(step, fault=dict(step["fault"], tie=0)))
+    if run.get("loglevel", "off") != "off":
+        yield dict(run, loglevel="off")
     if step.get("fault_then"):
         yield _with_step(run, focus, {k: v for k, v in step.items() if k != "fault_then"})
     if step.get("default_fault"):
